@@ -347,6 +347,32 @@ def run(ctx, prop=PROP):
             if real[0] == 'err' and prop == 'C01' and 'overflow' not in str(real[1]) and 'natural' not in str(real[1]):
                 ctx.violation('wellTyped-program-errors:' + mich.to_line(code)[:120], f'well-typed program fails with {real[1]}', {'code': code, 'env': env})
 
+    # ---- COMPARE on the comparable types the interpreter model does not order itself (key_hash, address, key, signature, chain_id and
+    # composites over them): judged by the independent order of C03's generator (harness/gen_c03.py), no Lean model in this stream.
+    # The interpreter property covers COMPARE on every comparable type; the order itself is proved in C03's model.
+    if prop == 'C01':
+        from harness import gen_c03 as G3
+        dom = ['key_hash', 'address', 'key', 'signature', 'chain_id', ('pair', 'key_hash', 'nat'), ('option', 'key_hash'), ('or', 'key_hash', 'address')]
+        worst = None
+        for di in range(160 if ctx.tier == 'quick' else 4000):
+            t = dom[di % len(dom)]
+            a, b = G3.gen_pair(ctx.rng, t)
+            code = [{'prim': 'PUSH', 'args': [G3.ty_expr(t), G3.to_micheline(b)]}, {'prim': 'PUSH', 'args': [G3.ty_expr(t), G3.to_micheline(a)]}, {'prim': 'COMPARE'}]
+            real = interp_run.run_real(code, gen_env(ctx.rng))
+            want = G3.tz_cmp(a, b)
+            ctx.case({'stream': 'domain-compare', 'type': G3.ty_text(t), 'a': G3.to_text(a), 'b': G3.to_text(b)}, nontrivial=want != 0)
+            ctx.count('domain-compare', t if isinstance(t, str) else t[0])
+            got = int(real[1][0][1]['int']) if real[0] == 'ok' and real[1] and 'int' in real[1][0][1] else real[0]
+            if got != want:
+                size = len(G3.to_text(a)) + len(G3.to_text(b))
+                if worst is None or size < worst[0]:
+                    worst = (size, t, a, b, got, want)
+        if worst is not None:
+            _, t, a, b, got, want = worst
+            ctx.violation(f'result-differs:COMPARE:{t if isinstance(t, str) else t[0]}',
+                          f'PUSH {G3.ty_text(t)} {G3.to_text(b)} ; PUSH {G3.ty_text(t)} {G3.to_text(a)} ; COMPARE -> {got}, the Michelson order gives {want}',
+                          {'type': G3.ty_text(t), 'a': G3.to_text(a), 'b': G3.to_text(b), 'got': got, 'expected': want})
+
     # ---- report: smallest failing programs first; the first few are minimised (each step re-runs both sides)
     for n, (size, _, code, env, real, spec_m, specg_m, d2) in enumerate(sorted(failing, key=lambda f: f[:2])):
         small, real_s, spec_s = (shrink(ctx, prop, code, env, real, spec_m) if n < 4 else (code, real, spec_m))
